@@ -32,9 +32,12 @@ type C08Case struct {
 var c08Points = []string{"after", "after", "after", "disk.SetTableMeta.start", "disk.SetTableMeta.tmpWritten", "disk.SetTableMeta.renamed",
 	"disk.Create.metaWritten", "leveldb.Clear.closed", "leveldb.Clear.reopened", "disk.newDb.nuked"}
 
+// table ids become file and directory names of the disk engine: one that ends in a path separator is among them
+var c08Tables = []string{"t", "slash/", "T-x.y"}
+
 func genC08() *rapid.Generator[C08Case] {
 	return rapid.Custom(func(t *rapid.T) C08Case {
-		ctx := bt.ProgCtx{Tables: c14Tables[:rapid.IntRange(1, 3).Draw(t, "ntables")], Parents: c14Parents[:rapid.IntRange(1, 2).Draw(t, "nparents")],
+		ctx := bt.ProgCtx{Tables: c08Tables[:rapid.IntRange(1, 3).Draw(t, "ntables")], Parents: c14Parents[:rapid.IntRange(1, 2).Draw(t, "nparents")],
 			Fams: bt.AllFams, Keys: c14Keys, Quals: c14Quals, InvalidPct: 0, Admin: 7, Reads: 0}
 		crashPct := rapid.SampledFrom([]int{10, 25, 60}).Draw(t, "crashPct")
 		first := C08Step{Op: bt.Op{K: "CreateTable", Table: ctx.Tables[0], Fams: []bt.FamDef{{Name: "f", GC: &bt.GC{K: "maxv", N: 2}}, {Name: "g"}}}}
